@@ -66,8 +66,81 @@ func c07World(t *testing.T, p c07Params) rt.Result {
 			}
 			return hz.DialRefuse, 0
 		}
+		if p.Mode == "race-new" {
+			lat = 5 * time.Millisecond
+		}
+		t0 := w.Now()
 		mon := w.MustAddPeer(ps)
 		var oc, ic *hz.RConn
+		if p.Mode == "race-new" {
+			// one connection completes its OPEN exchange alone; the other one comes into
+			// being (inbound: is accepted / outbound: its dial completes) at the instant the
+			// first becomes Established. The Established one is kept, the other is closed.
+			jit := time.Duration(mix(p.Seed) % 3000)
+			desc := fmt.Sprintf("[mode race-new, %s connection becomes Established as the other one appears (offset %v)]", p.First, jit)
+			var first *hz.RConn
+			if p.First == "out" {
+				oc = w.WaitOut(1, time.Minute)
+				first = oc
+			} else {
+				ic = w.Connect(ps.Addr)
+				first = ic
+			}
+			if first == nil {
+				w.Violate("no first connection")
+				return
+			}
+			w.Settle()
+			first.SendOpen(first.StdOpen(ras, 90, rid))
+			w.Settle()
+			if ms := first.Msgs(); len(ms) != 2 || ms[1].Type != wire.TypeKeepalive {
+				w.Violate("%s setup: OPEN exchange on the first connection: %s", desc, typesOf(ms))
+				return
+			}
+			if p.First == "out" {
+				first.SendKeepalive()
+				if jit > 0 {
+					time.Sleep(jit % 2000)
+				}
+				ic = w.Connect(ps.Addr)
+			} else {
+				// the dial completes 5 ms after AddPeer
+				if d := t0 + 5*time.Millisecond - jit%2000 - w.Now(); d > 0 {
+					time.Sleep(d)
+				}
+				first.SendKeepalive()
+			}
+			w.Settle()
+			w.Settle()
+			second := ic
+			if p.First == "in" {
+				second = nil
+				if oo := w.OutConns(); len(oo) > 0 {
+					second = oo[0]
+				}
+			}
+			outcome = "est-kept"
+			if !mon.Up() {
+				w.Violate("%s the connection that completed its handshake is not Established", desc)
+				return
+			}
+			if eof, _ := first.EOF(); eof {
+				w.Violate("%s the Established connection was closed: %s", desc, typesOf(first.Msgs()))
+				return
+			}
+			if second != nil {
+				if eof, _ := second.EOF(); !eof {
+					w.Violate("%s the other connection was left open next to the Established one (it saw [%s])", desc, typesOf(second.Msgs()))
+					return
+				}
+			}
+			first.SendUpdate(updBody(first.ID, 0))
+			w.Settle()
+			if cur := mon.Cur(); cur == nil || len(cur.Updates) != 1 {
+				w.Violate("%s UPDATE on the Established connection not delivered", desc)
+			}
+			return
+		}
 		if p.Late {
 			ic = w.Connect(ps.Addr)
 			oc = w.WaitOut(1, time.Minute)
@@ -217,7 +290,7 @@ func c07World(t *testing.T, p c07Params) rt.Result {
 
 func TestC07(t *testing.T) {
 	c := rt.Get()
-	modes := []string{"ordered", "simul", "estfirst", "race-est", "race-ka", "race-close", "race-bad"}
+	modes := []string{"ordered", "simul", "estfirst", "race-est", "race-ka", "race-close", "race-bad", "race-new"}
 	rel := [][2]string{{"lt", "lt"}, {"gt", "lt"}, {"eq", "lt"}, {"eq", "gt"}, {"lt", "gt"}, {"gt", "gt"}, {"far-lt", "lt"}, {"far-gt", "lt"}, {"far-lt", "gt"}, {"far-gt", "gt"}}
 	seeds := c.N(48, 3000)
 	idx := 0
